@@ -311,7 +311,7 @@ def run(ctx):
     cli_runs = 0
     clock = {"reads": 0, "span": None}
     if not rep.violations:
-        cli_runs = cli_layer(ctx, rep, workloads, n=int((24 if quick else 400) * ctx.scale))
+        cli_runs = cli_layer(ctx, rep, workloads, n=int((64 if quick else 800) * ctx.scale))
         evaluations += cli_runs
     if not rep.violations:
         clock = clock_layer(ctx, rep, n=int((120 if quick else 3000) * ctx.scale))
@@ -377,23 +377,64 @@ def normalise_cli(text):
 
 
 def cli_layer(ctx, rep, workloads, n):
-    """The real CLI as a subprocess (`python -m json_to_models`, real files, real clock) under 4 hash seeds per
-    workload: stdout must be identical except the timestamp line of the header."""
+    """The real CLI as a subprocess (`python -m json_to_models`, real files in one real directory, real clock) under 4
+    hash seeds per workload: stdout must be identical except the timestamp line of the header.  Samples are given as
+    one file, as many files through recursive / plain glob patterns, or as many explicit -m arguments."""
     from concurrent.futures import ThreadPoolExecutor
     from .. import loader
     rng = seeds.derive(ctx.seed, PROP, "cli")
-    scratch = tempfile.mkdtemp(prefix="j2m-c06-", dir="/dev/shm" if os.path.isdir("/dev/shm") else None)
+    # deterministic scratch name: path strings are hashed by the code under test (hash order of Path sets), so a random
+    # directory name would make the run depend on something other than VERIF_SEED
+    root = "/dev/shm" if os.path.isdir("/dev/shm") else tempfile.gettempdir()
+    scratch = None
+    for k in range(1000):
+        cand = os.path.join(root, f"j2m-c06-{ctx.seed}-{k}")
+        try:
+            os.mkdir(cand)
+            scratch = cand
+            break
+        except FileExistsError:
+            continue
+    if scratch is None:
+        scratch = tempfile.mkdtemp(prefix="j2m-c06-", dir=root)
     try:
         picks = workloads[:n]
         tasks = []
+        file_maps = {}
+        import re as _re
         for j, w in enumerate(picks):
             argv = []
+            style = rng.choice(["one_file", "many_files_recursive_glob", "many_files_recursive_glob", "many_files_explicit",
+                                "many_files_glob"])
             for mi, (name, samples) in enumerate(w["models"]):
-                fn = os.path.join(scratch, f"w{j}_m{mi}.json")
-                with open(fn, "w", encoding="utf-8") as f:
-                    _json.dump(samples, f, ensure_ascii=False)
-                import re as _re
-                argv += ["-m", _re.sub(r"\W", "", name) or "M", fn]
+                mname = _re.sub(r"\W", "", name) or "M"
+                if style == "one_file":
+                    fn = os.path.join(scratch, f"w{j}_m{mi}.json")
+                    with open(fn, "w", encoding="utf-8") as f:
+                        _json.dump(samples, f, ensure_ascii=False)
+                    argv += ["-m", mname, fn]
+                    continue
+                # one file per sample (repeated up to >= 8 files: thread pools, caches and de-duplication in file
+                # loading only show with many files), spread over two sub-directories
+                items = list(samples)
+                while len(items) < 8 and items and rng.random() < 0.7:
+                    items += samples
+                paths = []
+                for si, smp in enumerate(items[:16]):
+                    d = os.path.join(scratch, f"w{j}", f"d{mi}", f"sub{si % 2}")
+                    os.makedirs(d, exist_ok=True)
+                    fn = os.path.join(d, f"s{si:02d}.json")
+                    with open(fn, "w", encoding="utf-8") as f:
+                        _json.dump(smp, f, ensure_ascii=False)
+                    paths.append(fn)
+                base = os.path.join(scratch, f"w{j}", f"d{mi}")
+                if style == "many_files_recursive_glob":
+                    argv += ["-m", mname, os.path.join(base, "**", "*.json")]
+                elif style == "many_files_glob":
+                    argv += ["-m", mname, os.path.join(base, "sub0", "*.json"), "-m", mname, os.path.join(base, "sub?", "s*.json")]
+                else:
+                    for fn in paths:
+                        argv += ["-m", mname, fn]
             o = w["options"]
             argv += ["-f", o["framework"], "-s", o["structure"], "--merge", *o["merge"],
                      "--max-strings-literals", str(o["max_literals"])]
@@ -405,6 +446,15 @@ def cli_layer(ctx, rep, workloads, n):
                 argv += ["--dkr", *o["dict_keys_regex"]]
             if o["dict_keys_fields"]:
                 argv += ["--dkf", *o["dict_keys_fields"]]
+            fm = {}
+            for root, _d, files in os.walk(scratch):
+                for fn in files:
+                    full = os.path.join(root, fn)
+                    rel = os.path.relpath(full, scratch)
+                    if rel.startswith(f"w{j}_") or rel.startswith(f"w{j}{os.sep}"):
+                        with open(full, encoding="utf-8") as fh:
+                            fm[rel] = fh.read()
+            file_maps[j] = fm
             hs_list = [0] + [rng.randrange(1, 2 ** 32) for _ in range(3)]
             for hs in hs_list:
                 tasks.append((j, hs, argv))
@@ -428,7 +478,8 @@ def cli_layer(ctx, rep, workloads, n):
             for o in outs[1:]:
                 if (o[2], o[3]) != (base[2], base[3]):
                     rep.violation("cli-subprocess:" + seeds.digest(picks[j])[:10], {
-                        "kind": "cli-subprocess", "workload": picks[j], "argv_tail": base[1], "hashseeds": [base[0], o[0]],
+                        "kind": "cli-subprocess", "files": file_maps[j], "scratch": scratch,
+                        "argv": [a.replace(scratch, "{DIR}") for a in base[1]], "hashseeds": [base[0], o[0]],
                         "clause": "CLI stdout identical except the timestamp line",
                     }, f"real CLI subprocess differs between PYTHONHASHSEED={base[0]} and {o[0]}: "
                        + first_diff({"text": base[3][1]}, {"text": o[3][1]}))
@@ -482,6 +533,35 @@ def clock_layer(ctx, rep, n):
 
 
 def replay(ctx, payload):
+    if payload.get("kind") == "cli-subprocess":
+        # NOTE: exact for hash-seed dependence; a difference caused by uncontrolled real threads inside the CLI process
+        # may need several attempts (the replay tries 3 times)
+        from .. import loader
+        # same directory path as in the original run (path strings are hashed by the code under test)
+        scratch = payload.get("scratch")
+        try:
+            os.makedirs(scratch)
+        except (OSError, TypeError):
+            scratch = tempfile.mkdtemp(prefix="j2m-c06r-", dir="/dev/shm" if os.path.isdir("/dev/shm") else None)
+        try:
+            for rel, text in payload["files"].items():
+                fn = os.path.join(scratch, rel)
+                os.makedirs(os.path.dirname(fn), exist_ok=True)
+                with open(fn, "w", encoding="utf-8") as fh:
+                    fh.write(text)
+            argv = [a.replace("{DIR}", scratch) for a in payload["argv"]]
+            for _ in range(3):
+                outs = []
+                for hs in payload["hashseeds"]:
+                    env = dict(os.environ, PYTHONHASHSEED=str(hs), PYTHONPATH=loader.repo_dir(), PYTHONIOENCODING="utf-8")
+                    p = subprocess.run([PYTHON, "-m", "json_to_models", *argv], capture_output=True, env=env, timeout=180, cwd=scratch)
+                    outs.append((p.returncode, normalise_cli(p.stdout.decode("utf-8", "replace"))))
+                if outs[0] != outs[1]:
+                    return True, "real CLI subprocess output differs between the two hash seeds: " + \
+                        first_diff({"text": outs[0][1][1]}, {"text": outs[1][1][1]})
+            return False, "CLI outputs identical"
+        finally:
+            shutil.rmtree(scratch, ignore_errors=True)
     if payload.get("kind") == "clock":
         from ..scenario import cli_spec
         sc, (a, b), g = payload["scenario"], payload["clocks"], payload["glob_seed"]
